@@ -1193,6 +1193,83 @@ func corr(e *env, seed uint64, n int, big int) {
 		emit("G", next(), scheme, string(codec), hexCsv(spsRaw), hexCsv(ppsRaw), hx.Hex(k), hx.Hex(iv), strconv.Itoa(fr.cb), strconv.Itoa(fr.sb),
 			samplesField(samples), orDash(fr.before), orDash(fr.trafc), fr.obs)
 	}
+	// --- T: EncryptFragment over the BYTES of the fragment (C07TrafModel.v): the moof children in front of / behind
+	//        the traf and the traf children as encoded boxes, before and after; the model appends its own byte
+	//        encodings of saiz / saio (offset included) / senc and encrypts the samples
+	for i := 0; i < nf/2; i++ {
+		scheme := []string{"cenc", "cbcs"}[r.Intn(2)]
+		ns := r.Pick(1, 2, 3, 5)
+		var samples [][]byte
+		var spsRaw, ppsRaw [][]byte
+		codec := byte('h')
+		o := fragOpts{extraMoof: r.Pick(0, 1, 2), extraTraf: r.Pick(0, 1, 2), moofBefore: r.Bool()}
+		var g *hevcEnv
+		switch i % 3 {
+		case 0:
+			codec = 'a'
+			spsRaw, ppsRaw = e.avcSpsRaw, e.avcPpsRaw
+		case 1:
+			codec = 'u'
+		default:
+			g = e.gen[r.Intn(len(e.gen))]
+			spsRaw, ppsRaw = [][]byte{g.cfg.sps}, [][]byte{g.cfg.pps}
+			o.init = g.init
+		}
+		for j := 0; j < ns; j++ {
+			switch {
+			case codec == 'u':
+				samples = append(samples, genAudioSample(r, 0))
+			case g != nil:
+				nal, _ := genHevcAccessUnit(g.cfg, r, false)
+				samples = append(samples, frame(nal))
+			case scheme == "cbcs":
+				samples = append(samples, frame(benign(r, codec, genVideoSampleCbcs(e, r, codec, 0))))
+			default:
+				samples = append(samples, frame(benign(r, codec, genVideoSampleCenc(r, codec, 0))))
+			}
+		}
+		iv := genIV(r, r.Pick(8, 16))
+		k := key()
+		fr := e.runFragment(codec, scheme, k, iv, samples, o, r)
+		boxes := func(l []mp4.Box) string {
+			var bs [][]byte
+			for _, b := range l {
+				bs = append(bs, encodeBox(b))
+			}
+			return hexList(bs)
+		}
+		split := func(f *mp4.Fragment) (before, traf, after []mp4.Box) {
+			seen := false
+			for _, c := range f.Moof.Children {
+				switch {
+				case c.Type() == "traf":
+					seen = true
+					traf = c.(*mp4.TrafBox).Children
+					for _, tc := range traf { // a trun only encodes with a data offset; Fragment.Encode sets it later
+						if tr, ok := tc.(*mp4.TrunBox); ok && tr.DataOffset == 0 {
+							tr.DataOffset = 4242
+						}
+					}
+				case seen:
+					after = append(after, c)
+				default:
+					before = append(before, c)
+				}
+			}
+			return
+		}
+		if fr.frag == nil {
+			continue
+		}
+		cb4, ct, ca := split(buildFragment(fr.trackID, samples, o, nil))
+		obs := fr.class
+		if fr.class == "ok" {
+			_, et, _ := split(fr.frag)
+			obs = "ok|" + boxes(et) + "|" + hexList(fr.enc)
+		}
+		emit("T", next(), scheme, string(codec), hexCsv(spsRaw), hexCsv(ppsRaw), hx.Hex(k), hx.Hex(iv), strconv.Itoa(fr.cb), strconv.Itoa(fr.sb),
+			boxes(cb4), boxes(ct), boxes(ca), samplesField(samples), obs)
+	}
 	out.Flush()
 }
 
